@@ -103,11 +103,17 @@ func bombMulti(kind, place string, pad int, now time.Time) (string, int) {
 	msg, _ := base64.StdEncoding.DecodeString(one)
 	plain, _ := inflateAll(msg)
 	var out bytes.Buffer
-	total := 0
+	// what the payload inflates to: a DEFLATE stream ends with its final block, so a conformant inflater yields the first
+	// stream only; the further streams are trailing bytes it never reads (a decoder that goes on reading them materialises
+	// more than the payload's inflated size - the allocation budget is what bounds that)
+	total, first := 0, -1
 	emit := func(b []byte) {
 		w, _ := flate.NewWriter(&out, 6)
 		w.Write(b)
 		w.Close()
+		if first < 0 {
+			first = len(b)
+		}
 		total += len(b)
 	}
 	cut := len(plain)
@@ -129,7 +135,8 @@ func bombMulti(kind, place string, pad int, now time.Time) (string, int) {
 		emit([]byte("-->"))
 		emit(plain)
 	}
-	return base64.StdEncoding.EncodeToString(out.Bytes()), total
+	_ = total
+	return base64.StdEncoding.EncodeToString(out.Bytes()), first
 }
 
 func runC14(c *Ctx) {
@@ -149,7 +156,7 @@ func runC14(c *Ctx) {
 			if !c.thorough() && mb >= 64 && place != "comment" && place != "after-root" && place != "attribute" && place != "pre-root-comment" {
 				continue
 			}
-			for _, container := range []string{"raw", "zlib", "gzip"} {
+			for _, container := range []string{"raw", "zlib", "gzip", "multistream"} {
 				if container != "raw" && place != "comment" && place != "after-root" {
 					continue
 				}
